@@ -817,6 +817,16 @@ def register(I):
     def drop(I, st, args, info):
         return ()
 
+    for n in ("Option::unwrap", "Result::unwrap", "Option::expect", "Result::expect", "Option::unwrap_or", "Result::unwrap_or",
+              "Option::is_none", "Option::is_some", "Result::is_err", "Option::as_ref", "Result::as_ref", "Result::or_else",
+              "Result::map_err", "Result::map", "Option::map", "Option::and_then", "Option::is_some_and",
+              "Result::unwrap_or_else", "Option::unwrap_or_else", "Try::branch", "FromResidual::from_residual",
+              "PartialEq::eq", "PartialEq::ne", "Clone::clone", "ToOwned::to_owned", "String::push_str", "String::push",
+              "Vec::push", "Vec::len", "Vec::is_empty", "Vec::as_slice", "<impl [T]>::first", "<impl [T]>::last",
+              "<impl [T]>::iter", "<impl str>::is_empty", "String::is_empty", "String::len", "::must_use", "must_use",
+              "hint::must_use", "mem::drop", "::drop", "Box::new", "Rc::new", "Fn::call", "FnMut::call_mut", "FnOnce::call_once"):
+        if n in R:
+            R[n].union_ok = True
     from . import fmtmodel, bitflagsmodel
     fmtmodel.register(I, R, fmt_hooks)
     bitflagsmodel.register(I, R)
